@@ -224,7 +224,24 @@ def program_case(ctx, st: Stats, key, src: str, ver, origin: str, d, n) -> None:
     st.compared += 1
     if dmsgs == nmsgs:
         return
+    if module_is_ignored(src) and set(nmsgs) <= set(dmsgs):
+        extra = [m for m in dmsgs if m not in nmsgs]
+        _report(ctx, st, {"class": "ignored-module-residual-diagnostics"},
+                "a `# type: ignore` before the first statement ignores the whole module: the default front end wraps the body in an "
+                "unreachable block, which some passes still visit (%r); the native front end delivers an empty module and reports nothing"
+                % (extra[:2],), detail)
+        return
     compare_messages(ctx, st, key, src, ver, dmsgs, nmsgs, detail)
+
+
+def module_is_ignored(src: str) -> bool:
+    """the module-level-ignore rule evaluated on the host ast (used only to attribute a difference)"""
+    from . import families, norm
+    inp = families.module_ignore_input(src)
+    if not inp or inp[1] is None:
+        return False
+    valid = [l for l, t in inp[0] if norm.real_tag(t) is not None]
+    return bool(valid) and min(valid) < (inp[1][1] or inp[1][0])
 
 
 def status_default_only(ctx, st, key, src, ver, dmsgs, nmsgs, gates, detail) -> None:
@@ -793,7 +810,14 @@ def signature_case(ctx, s, src, m_def, m_nat, obs, reported: set) -> None:
         name = m_def["args"][dup][0]
         ok_d = d[0] == "blocked" and any('Duplicate parameter "%s" in function definition' % name in m for m in d[1])
     else:
-        ok_d = d[0] == "ok" and d[1]["args"] == m_def["args"] and (d[1]["names"] is None or d[1]["names"] == m_def["names"])
+        ok_d = d[0] == "ok" and d[1]["args"] == m_def["args"] and (d[1]["names"] is None or d[1]["names"] == m_def["names"]) \
+            and (d[1].get("item_names") is None or d[1]["item_names"] == m_def["names"])
+        if d[0] == "ok" and d[1]["args"] == m_def["args"] and not ok_d:
+            w = _witness(ctx, src, keyword_call=True)
+            rep({"class": "callable-argument-names-differ-between-front-ends"},
+                "%r: the default front end's Arguments are %r but its callable was built with arg_names %r / FuncItem.arg_names %r; "
+                "model: %r%s" % (src, [a[:3] for a in d[1]["args"]], d[1]["names"], d[1].get("item_names"), m_def["names"], w))
+            return
     if not ok_d:
         # search: is a clause of the property seen to fail?  — the two front ends on this very signature
         if d[0] == "crash":
@@ -830,7 +854,18 @@ def signature_case(ctx, s, src, m_def, m_nat, obs, reported: set) -> None:
     if n[0] != "ok":
         rep({"class": "blocking-status-differs", "where": "signature"}, "%r: default ok, native %s %r" % (src, n[0], n[1]))
         return
-    ok_n = n[1]["args"] == m_nat["args"] and (n[1]["names"] is None or n[1]["names"] == m_nat["names"])
+    names_ok_n = (n[1]["names"] is None or n[1]["names"] == m_nat["names"]) and \
+        (n[1].get("item_names") is None or n[1]["item_names"] == m_nat["names"])
+    if n[1]["args"] == m_nat["args"] and not names_ok_n:
+        # the Arguments are right but the names the *callable* was built with are not (arg_names is computed when the
+        # FuncDef / CallableType is constructed): the meaning of keyword calls differs
+        w = _witness(ctx, src, keyword_call=True)
+        rep({"class": "callable-argument-names-differ-between-front-ends"},
+            "%r: the native front end's Arguments are %r but its callable was built with arg_names %r / FuncItem.arg_names %r; "
+            "model and default front end: %r%s" % (src, [a[:3] for a in n[1]["args"]], n[1]["names"], n[1].get("item_names"),
+                                                   m_nat["names"], w))
+        return
+    ok_n = n[1]["args"] == m_nat["args"] and names_ok_n
     if ok_n:
         if m_nat["args"] != m_def["args"]:
             # the modelled disagreement (not_parsers_agree_posonly): make it concrete on diagnostics once
@@ -867,17 +902,32 @@ def only_posonly_dunder(a, b) -> bool:
     return True
 
 
-def _witness(ctx, src: str, raw: bool = False) -> str:
-    """diagnostics of both front ends on `reveal_type(<function>)` — the property's own oracle"""
+def _witness(ctx, src: str, raw: bool = False, keyword_call: bool = False) -> str:
+    """diagnostics of both front ends on `reveal_type(<function>)` (+ a call passing every parameter by keyword) —
+    the property's own oracle"""
     try:
+        prog = src
         if not raw:
-            m = re.search(r"def (\w+)", src)
-            prog = src + ("\nreveal_type(%s)\n" % m.group(1) if m and not src.startswith(("class", "def outer")) else "\nreveal_type(L)\n" if src.startswith("L =") else "")
-        else:
-            prog = src
+            m = re.search(r"def (\w+)\(([^)]*)\)", src, re.S)
+            if src.startswith("L ="):
+                target = "L"
+            elif src.startswith("class K") and m:
+                target = "K." + m.group(1)
+            elif src.startswith("def outer") or not m:
+                target = None
+            else:
+                target = m.group(1)
+            if target:
+                prog = src + "\nreveal_type(%s)\n" % target
+                if keyword_call and m:
+                    names = [p.strip().lstrip("*").split(":")[0].split("=")[0].strip() for p in m.group(2).split(",")]
+                    names = [x for x in names if x and x not in ("/", "*") and x.isidentifier()]
+                    prog += "%s(%s)\n" % (target, ", ".join("%s=1" % x for x in names))
         d, n = _diag_pair(ctx, prog)
         if d != n:
-            return "; diagnostics differ: default %r, native %r" % (d[1][:3], n[1][:3])
+            od = [x for x in d[1] if x not in n[1]]
+            on = [x for x in n[1] if x not in d[1]]
+            return "; diagnostics of %r differ: only default %r, only native %r" % (prog[len(src):].strip() or prog, od[:3], on[:3])
         return "; (diagnostics of a reveal_type witness agree)"
     except Exception as e:  # the witness is an illustration, never the verdict
         return "; (witness build failed: %s)" % type(e).__name__
@@ -942,6 +992,67 @@ def tag_e2e_case(ctx, tag: str, m, obs, reported: set) -> None:
     else:
         rep({"class": "type-ignore-differs-between-front-ends", "tag_model": "codes"},
             "well-formed `# type: ignore%s`: default front end %r, native %r %r" % (tag, d[0], n[0], n[1]))
+
+
+def module_ignore_case(ctx, src: str, desc: dict, m: dict, obs: dict, reported: set) -> None:
+    """m: the model's verdict; obs[native] = families.real_module_ignore(...)"""
+    from . import families
+    exp = {"whole": m["whole"], "ignores": {int(l): cs for l, cs in m["ignores"]}, "msgs": families.expected_messages(m)}
+    d, n = obs[False], obs[True]
+    detail = {"placement_source": src, "family": desc, "model": m, "default": d, "native": n}
+
+    def rep(observed, what):
+        k = observed["class"]
+        ctx.count("disagreements_checked")
+        if k in reported:
+            return
+        reported.add(k)
+        ctx.report(observed, what, detail)
+
+    def view(o):
+        return None if o.get("crash") or o.get("blocked") else {"whole": o["whole"], "ignores": o["ignores"], "msgs": o["msgs"]}
+    vd, vn = view(d), view(n)
+    if vd != exp:
+        # search: the property's oracle — do the two front ends now treat this file differently?
+        if vd is None or vn is None or vd["whole"] != vn["whole"] or vd["msgs"] != vn["msgs"]:
+            w = ""
+            try:
+                dd, nn = _diag_pair(ctx, src)
+                if dd != nn:
+                    w = "; diagnostics: default %r, native %r" % (dd[1][:4], nn[1][:4])
+            except Exception:
+                pass
+            rep({"class": "module-level-ignore-differs-between-front-ends"},
+                "%r: default front end %r, native front end %r; the rule (a `# type: ignore` before the first statement, a decorated "
+                "definition starting at its first decorator) says %r%s" % (src[:160], vd, vn, exp, w))
+        elif "nfi" not in reported:
+            reported.add("nfi")
+            ctx.violation("module-level-ignore correspondence broken (model ≠ default front end) for %r: impl %r, model %r" % (src[:160], vd, exp),
+                          {"broken": "correspondence Driver/C14 `modign` vs ASTConverter.visit_Module / translate_stmt_list / get_lineno "
+                                     "(theorems module_ignore_iff, decorator_line_ignore_is_line_level)", **detail}, found_input=False)
+        return
+    if vn == exp:
+        return
+    if vn is None:
+        rep({"class": "native-front-end-crash", "where": "type: ignore placement"}, "native front end: %r on %r" % (n, src[:160]))
+        return
+    first_line = None
+    inp = families.module_ignore_input(src)
+    if inp and inp[1]:
+        first_line = inp[1][1] or inp[1][0]
+    if vn["whole"] and exp["whole"] and vn["msgs"] == exp["msgs"] and \
+            all(exp["ignores"].get(l) == cs for l, cs in vn["ignores"].items()):
+        rep({"class": "native-drops-line-ignores-of-ignored-module"},
+            "%r: the whole module is ignored by both; the other `# type: ignore` comments of the file stay line-level ignores for the "
+            "default front end (%r; only the first one before the first statement is consumed) and are dropped by the native one (%r) "
+            "— visible with --warn-unused-ignores for those before the first statement" % (src[:160], exp["ignores"], vn["ignores"]))
+        return
+    if m["invalid"] or any("#" in (t or "") for _, t in (inp[0] if inp else [])):
+        cls = "native-type-ignore-invalid-tag" if m["invalid"] else "native-type-ignore-comment-tail"
+        rep({"class": cls}, "%r: default front end %r, native %r" % (src[:160], vd, vn))
+        return
+    rep({"class": "module-level-ignore-differs-between-front-ends"},
+        "%r: default front end (= the rule) %r, native front end %r" % (src[:160], vd, vn))
 
 
 def _lines_in_strings(source: str):
